@@ -96,6 +96,9 @@ KANI_GROUPS = {
             dict(name="vk_trix_constant_candle", kind="bounded(Trix::default(), one concrete candle repeated 3 times)", timeout=600, props=["C08"]),
             dict(name="vk_rvi_constant_candle", kind="bounded(RelativeVigorIndex::default(), one concrete candle repeated 3 times)", timeout=600, props=["C08"]),
             dict(name="vk_dyn_forwarding_momentum_index", kind="bounded(MomentumIndex(2,1) through dyn dispatch: 3 symbolic steps, then over() on 2 more, then 1 step)", timeout=300, props=["C11"]),
+            dict(name="vk_default_configs_validate", kind="complete", timeout=300, props=["C11"]),
+            dict(name="vk_default_configs_init_a", kind="bounded(default configurations of 18 indicators, init on one concrete valid candle)", timeout=1200, tier="thorough", props=["C11"]),
+            dict(name="vk_default_configs_init_b", kind="bounded(default configurations of the other 18 indicators, init on one concrete valid candle)", timeout=1200, tier="thorough", props=["C11"]),
             dict(name="vk_pivot_reversal_low_pivot_buys", kind="bounded(concrete stream with one low pivot, 4 candles)", timeout=300, props=["C06"]),
         ]),
     "renko": dict(
@@ -323,9 +326,12 @@ PROPS["C11"] = dict(
            "only it, takes the parsed value and Ok is returned; on a parse error or any other name Err is returned and the configuration is unchanged. "
            "Result shape: IndicatorResult::new is proved by Kani (every pair of input lengths 0..=6, symbolic contents: complete for the fixed capacity 4) to keep "
            "min(4, n) values/signals in order and to report exactly those lengths; for the indicators under contract (see C05) next is verified to return "
-           "exactly the (values, signals) counts that size() announces."),
+           "exactly the (values, signals) counts that size() announces. Default configurations: validate() of all 36 `Default::default()` configurations is proved true by a loop-free "
+           "concrete Kani harness (vk_default_configs_validate: complete for this clause); that they initialise follows for the indicators whose init contract is `Ok exactly when valid` "
+           "and is additionally run by two bounded Kani harnesses (thorough tier) on one concrete valid candle for all 36."),
     assumptions=["strings are compared by their Seq<char> view (str_eq) and str::parse is an uninterpreted function of the text (abstract parsing)",
-                 "name() and default validity are not covered; dyn forwarding (core/indicator/dd.rs: one-line forwarders behind Box<dyn ...>, outside Verus' reach) is exercised by one bounded "
+                 "name() (a one-line `Self::NAME`) is not covered; for the generic indicators 'the default configuration initialises' on EVERY candle rests on the init contracts "
+                 "(Err only when validate() is false or the averaging constructor refuses) plus the bounded harnesses; dyn forwarding (core/indicator/dd.rs: one-line forwarders behind Box<dyn ...>, outside Verus' reach) is exercised by one bounded "
                  "Kani harness (MomentumIndex through IndicatorConfigDyn/IndicatorInstanceDyn against the static calls), not proved; the shape claim covers all 36 shipped indicators"],
 )
 
